@@ -582,6 +582,9 @@ impl Prop for C05 {
 			}
 			Op::NewAccount { w, .. } | Op::SetAccount { w, .. } | Op::Scan { w, .. } => {
 				self.base.remove(w);
+				// the last refresh was of another account: the refresh embedded in the
+				// next call is not a no-op for the account now active
+				self.fresh.remove(w);
 			}
 			Op::Restore { .. } => {
 				self.base.clear();
